@@ -47,6 +47,14 @@ def gen_case(rng):
         if rng.random() < 0.3:
             # a stream labelled with the root itself
             streams[rng.randrange(n)]["zone"] = "Site"
+        parents = sorted({"/".join(l.split("/")[:k]).strip() for l in labels for k in range(1, len(l.split("/")))})
+        if parents and n >= 2 and rng.random() < 0.4:
+            # a stream placed on a zone that has sub-zones gets a generated zone named after it;
+            # a LATER stream is labelled with the bare name of that generated zone
+            a = rng.randrange(n - 1); b = rng.randrange(a + 1, n)
+            streams[a]["zone"] = rng.choice(parents)
+            streams[a]["name"] = f"S{a + 1}"
+            streams[b]["zone"] = streams[a]["name"]
         if rng.random() < 0.3:
             # labels given relative to the root or with the root in front
             for s in streams:
@@ -208,6 +216,25 @@ def oracle(case, zones, util_ids):
             homes.append(tuple(h))
         else:
             homes.append(tuple(["Site"] + parts(s["zone"])))
+    gen_homes = {}
+    if tree:
+        # a label may also name a zone GENERATED for an earlier stream (placed on the root or on a zone with sub-zones):
+        # unique path among tree nodes and generated zones that ends with the label, the generated zone already
+        # holding a stream that comes earlier in the input
+        tpaths = [tuple(x) for x in _tree_paths(tree)]
+        gen = [q for q in zones if q not in tpaths]
+        for b, (st, h) in enumerate(zip(streams, homes)):
+            if h is not None:
+                continue
+            comps = tuple(x.strip() for x in st["zone"].split("/") if x.strip())
+            if not comps:
+                continue
+            # generated zones that exist when stream b is processed: those holding a stream that comes earlier
+            earlier = {sig(x["name"], x["t_supply"], x["t_target"], x["heat_flow"]) for x in streams[:b]}
+            gen_b = [q for q in gen if any(k in earlier for k in zones[q][0])]
+            cand = [q for q in tpaths + gen_b if len(q) >= len(comps) and q[-len(comps):] == comps]
+            if len(cand) == 1 and cand[0] in gen_b:
+                homes[b] = cand[0]; gen_homes[b] = cand[0]
     unresolved = [s for s, h in zip(streams, homes) if h is None]
     cause = None
     if tree:
@@ -235,9 +262,12 @@ def oracle(case, zones, util_ids):
                            if h is not None and h[:len(p)] == p)
             # a stream labelled with the root is moved into a process zone generated for it
             if p not in [tuple(x) for x in _tree_paths(tree)]:
-                # a zone generated for a stream placed on the root or on a zone with sub-zones: exactly that one stream
-                if sum(c.values()) != 1:
-                    fails.append(("leaf_holds_one_stream", f"generated zone {'/'.join(p)} holds {dict(c)}", cause))
+                # a zone generated for a stream placed on the root or on a zone with sub-zones: exactly that one stream,
+                # plus the later streams whose label names this generated zone
+                named = Counter(sig(streams[b]["name"], streams[b]["t_supply"], streams[b]["t_target"], streams[b]["heat_flow"])
+                                for b, q in gen_homes.items() if q == p)
+                if sum(c.values()) != 1 + sum(named.values()) or (named - c):
+                    fails.append(("leaf_holds_one_stream", f"generated zone {'/'.join(p)} holds {dict(c)}; labelled onto it later: {dict(named)}", cause))
                 continue
         else:
             if leaf and len(p) >= 2 and p[:-1] in homes and p[-1].startswith("O") and p[-1][1:].isdigit() and p not in homes:
